@@ -100,7 +100,9 @@ def model_predictions(scn, cevents, variants):
     sigs = [sig_of_event(c) for c in cevents]
     for vi, v in enumerate(variants):
         n = sum(1 for s_ in sigs[: v["index"]] if s_ is not None)
-        torn = v["kind"] in ("midwrite", "error_write")
+        torn = v["kind"] in ("midwrite", "error_write", "error_close")
+        if v["kind"] == "crash_after":
+            n += 1 if sigs[v["index"]] is not None else 0
         if sigs[v["index"]] is None and torn:
             continue
         lines.append("variant %d %d" % (n, int(torn)))
@@ -190,7 +192,7 @@ def run_variant(base_root, scn, sc, backend, variant):
             fault = dict(kind="crash", index=variant["index"])
         elif kind == "midwrite":
             fault = dict(kind="crash", index=variant["index"] + 1)
-        elif kind in ("error_event", "error_write"):
+        elif kind in ("error_event", "error_write", "error_close", "crash_after"):
             fault = dict(kind=kind, index=variant["index"])
         w = child(dict(root=root, cache_mb=cache, calls=[sc["target"]], fault=fault,
                        then=sc["matrix"] if kind.startswith("error") else []))
@@ -238,8 +240,11 @@ def enumerate_scenario(chk, scn, backend, workers=16, use_model=True):
     for i, ce in enumerate(cevents):
         variants.append(dict(kind="crash", index=i, event=ce))
         variants.append(dict(kind="error_event", index=i, event=ce))
+        if ce.startswith("rename"):
+            variants.append(dict(kind="crash_after", index=i, event=ce))
         if ce.startswith("open-w"):
             variants.append(dict(kind="error_write", index=i, event=ce))
+            variants.append(dict(kind="error_close", index=i, event=ce))
             for cut in ("empty", "half"):
                 variants.append(dict(kind="midwrite", index=i, event=ce, cut=cut, path_rel=ce.split(" ", 1)[1]))
     recs = []
